@@ -22,7 +22,8 @@ import (
 func init() {
 	fw.Register(&fw.Check{Prop: "C12", Level: "fault_enumeration",
 		Assume: []string{
-			"scripted in-memory net.Conn / net.PacketConn: a read returns exactly the next scripted segment (never more), EOF or a timeout error after the script ends; no real sockets, no real time",
+			"scripted in-memory net.Conn / net.PacketConn: a read returns exactly the next scripted segment (never more), EOF or a timeout error after the script ends; no real sockets, no real time (one exception, next line)",
+			"space udp-sessions only: real UDP sockets on the loopback interface (127.0.0.1-3), because the control-message code of udp.go needs a *net.UDPConn; the order of events is forced with channels, a datagram that does not arrive within 5 s makes the case inconclusive (counted), never a violation",
 			"message bodies are arbitrary octets with a valid 12-octet header (framing must not depend on the content)",
 		},
 		Spaces: c12Spaces})
@@ -158,6 +159,7 @@ func c12ReadTwo(r *fw.R, a, b []byte, cuts []int, zero map[int]bool, how int) {
 }
 
 func c12Spaces(c *fw.Ctx) {
+	defer c12UDPSessionSpace(c)
 	small := []int{12, 13, 255, 256, 257, 511, 512, 513}
 	c.Space("stream/2-cuts", "two back-to-back framed messages (first of size s ∈ {12,13,255,256,257,511,512,513}, second of 12 or 300 octets) with the stream cut at every position (all 2-segment splits) and, for s ≤ 257, at every pair of positions inside the first frame (all 3-segment splits); through ReadMsgHeader(nil), ReadMsgHeader(&hdr) and Conn.Read; non-trivial: a cut falls inside the first frame", true,
 		func(emit func(func(*fw.R))) {
